@@ -7,6 +7,8 @@ R18.1 key_fields: every search (Iterator::position / find / rposition) over a ta
 R18.2 who-computes: every arithmetic with the constant FIRST_USER_TOKEN in parol adds it to (a) a position result of
       a search checked by R18.1, (b) an enumerate() index / a length, or subtracts it from a terminal index
       (inverse mapping).  Anything else is an unreviewed way of numbering terminals.
+      (c) since seed C18-c (R18.6): a count of terminals (FIRST_USER_TOKEN + length) is the length of Cfg::get_ordered_terminals
+      itself - the enumeration that numbers the terminals - and the constant is also recognised behind a cast.
 R18.3 FIRST_USER_TOKEN of the generator equals the runtime constant and is the successor of BLOCK_COMMENT.
 R18.5 no map / set keyed by components of a terminal's identity (hazard rule, expected count 0).
 R18.4 token numbers stored in the scanner configurations (skip lists, transitions) are renumbered by every function that
@@ -158,7 +160,9 @@ def check(ctx):
             if rv[0] != "bin":
                 continue
             ops = [rv[2], rv[3]]
-            ci = [i for i, o in enumerate(ops) if o[0] == "k" and o[3] == FUT]
+            # the constant may reach the operation through a cast (`FIRST_USER_TOKEN as usize`)
+            ci = [i for i, o in enumerate(ops) if (o[0] == "k" and o[3] == FUT) or
+                  (o[0] in ("c", "m") and (lambda t: t[0] == "const" and t[3] == FUT)(operand_term(b, o)))]
             if not ci:
                 continue
             n_arith += 1
@@ -166,6 +170,18 @@ def check(ctx):
             op = rv[1]
             key = "%s|first-user-token-arith|%s" % (fn_key(b, facts), op.replace("WithOverflow", ""))
             cls = classify_index_source(facts, b, other, checked_positions)
+            if cls == "length":
+                # R18.6 (added after seed C18-c): a terminal *count* is the length of the enumeration that numbers the terminals
+                from .c07 import origin_chain
+                chain, _leaf = origin_chain(b, other)
+                names = [nm for nm, _st, _c in chain]
+                if not any(nm in ("get_ordered_terminals", "get_ordered_terminals_owned") for nm in names):
+                    cls = "length-of-another-collection(%s)" % "<-".join(names)
+            elif cls.startswith("call:") and _returns_ordered_terminal_count(facts, b, other):
+                cls = "length"      # a wrapper: its body returns get_ordered_terminals().len()
+            elif cls.startswith("call:"):
+                cls += " (not the length of Cfg::get_ordered_terminals: a second way of counting terminals must identify them by " \
+                       "text, kind and look-ahead exactly like the numbering does; the count sizes the packed k-tuples)"
             if op.startswith("Add"):
                 ok = cls in ("position-checked", "enumerate-index", "length")
                 ctx.check(ok, "R18.2", key,
@@ -188,6 +204,31 @@ def check(ctx):
               "built-in tokens" % (fut, bc), "crates/parol_runtime/src/lexer/token.rs", nontrivial=False)
     renumbering_on_grammar_change(ctx, facts)
     no_terminal_keyed_maps(ctx, facts)
+
+
+def _returns_ordered_terminal_count(facts, b, op):
+    """the operand is the result of a call of a function in this crate whose every definition of its return value is
+    `<...get_ordered_terminals[_owned]()...>.len()` (one level of inlining, stated bound)"""
+    from .c07 import origin_chain
+    t = operand_term(b, op)
+    if t[0] != "call":
+        return False
+    callee = None
+    for nm in t[1].names():
+        callee = callee or facts.body_by_path_opt(nm)
+    if callee is None:
+        return False
+    rets = [c for c in callee.calls() if c.dest == [0]]
+    assigns = [1 for _bi, _si, p, _rv, _l, _m in callee.assigns() if p == [0]]
+    if assigns or not rets:
+        return False
+    for c in rets:
+        if (c.path or "").split("::")[-1] != "len" or not c.args:
+            return False
+        chain, _leaf = origin_chain(callee, c.args[0])
+        if not any(nm in ("get_ordered_terminals", "get_ordered_terminals_owned") for nm, _s, _c in chain):
+            return False
+    return True
 
 
 def _option_from_position(facts, body, term, depth=4):
